@@ -149,7 +149,7 @@ func (p *Program) verifyFunc(name string, view string) *FuncResult {
 			if ct.CheckCalls {
 				break // postconditions of a checkcalls contract stay assumed
 			}
-			if !e.inView(en) || (en.View == "" && !e.primary()) {
+			if en.Assumed || !e.inView(en) || (en.View == "" && !e.primary()) {
 				continue
 			}
 			for _, r := range f.rets {
